@@ -32,7 +32,7 @@ package props
 // final truncation. That gives the following first-order model of the distance to the
 // exact value (P = x^e):
 //
-//	|impl - exact| <= 1 + K * M * (expo + xerr + round)
+//	exact - 1 - E <= impl <= exact + E,   E = K * M * (expo + xerr + round)
 //	expo  = P * e * 2^-53 * |ln x|       float64 exponent: |de| <= e*2^-53, dP = P*ln(x)*de
 //	round = 4u * max(P, 1)               rounding of P, of P-1 (or 1-P) and of the product
 //	xerr  = propagated rounding of x (SetInt of operands above 2^100, quotient, 1+q / 1-q):
@@ -121,7 +121,10 @@ func (c c12Case) String() string {
 	return fmt.Sprintf("Calculate%s(supply=%s, reserve=%s, crr=%d, amount=%s)", c.k, c.s, c.r, c.crr, c.amt)
 }
 
-func (c c12Case) key() string { return fmt.Sprint(int(c.k), c.s, c.r, c.crr, c.amt) }
+// key identifies the input tuple (hashed to keep the statistics small).
+func (c c12Case) key() string {
+	return sim.HashStrings([]string{c.k.String(), c.s.String(), c.r.String(), fmt.Sprint(c.crr), c.amt.String()})
+}
 
 func (c c12Case) call(t *rapid.T) *big.Int {
 	res, p := c12Impl(c.k, c.s, c.r, c.crr, c.amt)
@@ -473,14 +476,18 @@ func c12ReturnBound(t *rapid.T, c c12Case, res *big.Int) {
 	t.Fatalf("VERIF-SIG[c12-return-above-reserve-unexplained] %s = %s exceeds the reserve by %s", c, res, over)
 }
 
-// c12Accuracy checks |impl - exact| <= 1 + K*model for a float-path call and returns the
-// ratio (|impl-exact|-1)/model.
+// c12Accuracy checks exact - 1 - K*model <= impl <= exact + K*model for a float-path call
+// (the final truncation only ever lowers the result) and returns the ratio excess/model.
 func c12Accuracy(t *rapid.T, c c12Case, res *big.Int, extra map[string]interface{}) float64 {
 	v := bancor.Eval(c.k, c.s, c.r, c.crr, c.amt, 80)
 	dist, sign := v.Dist(res)
 	mod := c12Unit(c.k, c.s, c.r, c.crr, c.amt)
 	distF := v.Scaled(dist)
-	excess := new(big.Float).SetPrec(64).Sub(distF, big.NewFloat(1)) // beyond truncation
+	// truncation is one-sided: exact - 1 - err < impl <= exact + err
+	excess := new(big.Float).SetPrec(64).Set(distF)
+	if sign < 0 {
+		excess.Sub(excess, big.NewFloat(1))
+	}
 	ratio := 0.0
 	if excess.Sign() > 0 && !mod.unit.IsInf() {
 		ratio, _ = new(big.Float).Quo(excess, mod.unit).Float64()
@@ -503,7 +510,7 @@ func c12Accuracy(t *rapid.T, c c12Case, res *big.Int, extra map[string]interface
 		}
 	case excess.Cmp(c12Slack(mod.unit)) > 0:
 		rel, _ := new(big.Float).Quo(distF, new(big.Float).Add(v.Float(), big.NewFloat(1))).Float64()
-		t.Fatalf("VERIF-SIG[c12-inaccurate] %s = %s, exact %s (impl-exact sign %+d, |diff| %s, relative to the exact value %.3g); allowed 1 + %d*%s (largest model term: %s), ratio to model %.4g",
+		t.Fatalf("VERIF-SIG[c12-inaccurate] %s = %s, exact %s (impl-exact sign %+d, |diff| %s, relative to the exact value %.3g); allowed %d*%s (plus 1 below the exact value for the truncation; largest model term: %s), ratio to model %.4g",
 			c, res, exact, sign, distF.Text('g', 10), rel, c12K, mod.unit.Text('g', 6), mod.term, ratio)
 	}
 	if mod.cancel {
